@@ -831,7 +831,7 @@ MUTANTS = [
     Mut("padding-pack-given-min-width", "urwid/widget/padding.py", "Padding.pack", "                self._width_amount + expand,\n", "                max(self._width_amount, self.min_width or 1) + expand,\n", "SIB|widget.padding.Padding.pack|given-width total differs between pack and padding_values"),
     Mut("twin-padding-pack-given-spelled-out", "urwid/widget/padding.py", "Padding.pack", "                self._width_amount + expand,\n", "                self.right + self._width_amount + self.left,\n", twin=True),
     Mut("bargraph-one-width-per-bar", "urwid/widget/bar_graph.py", "BarGraph.calculate_bar_widths", "            return [1] * maxcol", "            return [1] * len(bardata)", "BOUND|widget.bar_graph.BarGraph.calculate_bar_widths|bar widths [1] * len(bardata) not bounded by maxcol"),
-    Mut("listbox-trim-bottom-before-offset-final", "urwid/widget/listbox.py", "ListBox.calculate_visible", "        focus_rows = focus_widget.rows((maxcol,), True)\n\n        # 2. collect the widgets above the focus", "        focus_rows = focus_widget.rows((maxcol,), True)\n        trim_bottom = max(focus_rows + offset_rows - inset_rows - maxrow, 0)\n\n        # 2. collect the widgets above the focus", "SIB|widget.listbox.ListBox.calculate_visible|complementary quantities computed from different states", also=[("        trim_bottom = max(focus_rows + offset_rows - inset_rows - maxrow, 0)\n\n        # 3. collect", "        # 3. collect")]),
+    Mut("listbox-trim-bottom-before-offset-final", "urwid/widget/listbox.py", "ListBox.calculate_visible", "        focus_rows = focus_widget.rows((maxcol,), True)\n\n        # items inside the window", "        focus_rows = focus_widget.rows((maxcol,), True)\n        trim_bottom = max(focus_rows + offset_rows - inset_rows - maxrow, 0)\n\n        # items inside the window", "SIB|widget.listbox.ListBox.calculate_visible|complementary quantities computed from different states", also=[("        trim_bottom = max(focus_rows + offset_rows - inset_rows - maxrow, 0)\n\n        # 3. collect", "        # 3. collect")]),
     Mut("font-glyph-cache-by-character-only", "urwid/font.py", "Font.render", "        key = (character, get_encoding())\n", "        key = character\n", "MEMO|font.Font.render|dict memo self.canvas ignores"),
     Mut("twin-font-cache-key-inline", "urwid/font.py", "Font.render", "        key = (character, get_encoding())\n", "        key = (get_encoding(), character)\n", twin=True),
     Mut("progressbar-empty-complete-run", "urwid/widget/progress_bar.py", "ProgressBar.render", "        elif ccol == 0:\n            # less than one column complete and no room for the smoothing character: no (empty) complete run\n            c._attr = [[(self.normal, maxcol)]]\n", "", "RUNPOS|widget.progress_bar.ProgressBar.render|run length ccol not shown positive"),
